@@ -7,6 +7,8 @@ import (
 	"reflect"
 	"strconv"
 	"strings"
+	"sync"
+	"sync/atomic"
 	"testing"
 
 	bexpr "github.com/hashicorp/go-bexpr"
@@ -29,6 +31,7 @@ type Opts struct {
 	Unknown    *uni.Node `json:"unknown,omitempty"`
 	Hook       int       `json:"hook,omitempty"`
 	MaxExpr    uint64    `json:"max_expr,omitempty"`
+	HookEvery  uint32    `json:"hook_every,omitempty"` // HookSelf: re-entry period (0: every third hook call)
 }
 
 func unwrapHook(v reflect.Value) reflect.Value {
@@ -57,6 +60,79 @@ func shoutHook(v reflect.Value) reflect.Value {
 }
 
 func identityHook(v reflect.Value) reflect.Value { return v }
+
+// selfHook returns its argument; on every third call it first evaluates the evaluator it belongs
+// to once more, on the datum that evaluator is working on (one level deep): a hook that asks
+// the same rule set a second question. Evaluation is re-entrant.
+type selfHook struct {
+	ev    atomic.Pointer[bexpr.Evaluator]
+	datum atomic.Value // datumBox
+	depth int32
+	calls uint32
+	every uint32 // re-enter on every every-th call (0: every third)
+}
+
+type datumBox struct{ d interface{} }
+
+func (h *selfHook) fn(v reflect.Value) reflect.Value {
+	every := h.every
+	if every == 0 {
+		every = 3
+	}
+	if ev := h.ev.Load(); ev != nil && atomic.AddUint32(&h.calls, 1)%every == 1%every && atomic.CompareAndSwapInt32(&h.depth, 0, 1) {
+		if b, ok := h.datum.Load().(datumBox); ok {
+			func() {
+				defer atomic.StoreInt32(&h.depth, 0)
+				ev.Evaluate(b.d)
+			}()
+		} else {
+			atomic.StoreInt32(&h.depth, 0)
+		}
+	}
+	return v
+}
+
+// pendingSelf holds the self hooks handed out by Options()/option() that have not been bound to an evaluator yet.
+var (
+	pendingSelfMu sync.Mutex
+	pendingSelf   []*selfHook
+	boundSelf     sync.Map // *bexpr.Evaluator -> []*selfHook
+)
+
+// selfHookEvery, when non-zero, is the re-entry period given to the self hooks created next.
+var selfHookEvery uint32
+
+func newSelfHook() bexpr.Option {
+	h := &selfHook{every: selfHookEvery}
+	pendingSelfMu.Lock()
+	pendingSelf = append(pendingSelf, h)
+	pendingSelfMu.Unlock()
+	return bexpr.WithHookFn(h.fn)
+}
+
+// bindSelf attaches the self hooks created since the last call to ev (call it right after CreateEvaluator).
+func bindSelf(ev *bexpr.Evaluator) {
+	pendingSelfMu.Lock()
+	hs := pendingSelf
+	pendingSelf = nil
+	pendingSelfMu.Unlock()
+	if ev == nil || len(hs) == 0 {
+		return
+	}
+	for _, h := range hs {
+		h.ev.Store(ev)
+	}
+	boundSelf.Store(ev, hs)
+}
+
+// aimSelf tells ev's self hooks which datum the coming Evaluate call works on.
+func aimSelf(ev *bexpr.Evaluator, d interface{}) {
+	if hs, ok := boundSelf.Load(ev); ok {
+		for _, h := range hs.([]*selfHook) {
+			h.datum.Store(datumBox{d})
+		}
+	}
+}
 
 var nestedEvs = func() []*bexpr.Evaluator {
 	var out []*bexpr.Evaluator
@@ -107,6 +183,10 @@ func (o Opts) Options() []bexpr.Option {
 		out = append(out, bexpr.WithHookFn(shoutHook))
 	case ref.HookNested:
 		out = append(out, bexpr.WithHookFn(nestedHook))
+	case ref.HookSelf:
+		selfHookEvery = o.HookEvery
+		out = append(out, newSelfHook())
+		selfHookEvery = 0
 	}
 	if o.MaxExpr != 0 {
 		out = append(out, bexpr.WithMaxExpressions(o.MaxExpr))
@@ -225,6 +305,7 @@ func runImpl(text string, d interface{}, o Opts) implResult {
 	if ev == nil {
 		var err error
 		ev, err = bexpr.CreateEvaluator(text, o.Options()...)
+		bindSelf(ev)
 		if err != nil {
 			return implResult{CreateErr: err}
 		}
@@ -232,6 +313,7 @@ func runImpl(text string, d interface{}, o Opts) implResult {
 			evalCache[key] = ev
 		}
 	}
+	aimSelf(ev, d)
 	res, err, pan := safeEvaluate(ev, d)
 	return implResult{Res: res, Err: err, Panic: pan}
 }
